@@ -53,6 +53,10 @@ type Result struct {
 	Witness    any                 `json:"witness,omitempty"`
 	// More are additional violations found in the same case (each with own sig)
 	More []Finding `json:"more,omitempty"`
+	// ExitAfter asks the child process to end after this result was recorded (the case left a goroutine
+	// behind that cannot be stopped, e.g. one spinning in a non-terminating decoder); the parent runs the rest
+	// of the batch in a fresh process
+	ExitAfter bool `json:"exit_after,omitempty"`
 }
 
 type Finding struct {
@@ -330,6 +334,10 @@ func childMain(p *Property, tier string, seed int64, batchFile, outFile string) 
 		select {
 		case r := <-done:
 			write(outLine{Result: &r})
+			if r.ExitAfter {
+				os.RemoveAll(scratch)
+				return 4
+			}
 		case <-time.After(p.CaseTimeout):
 			write(outLine{Timeout: c.ID})
 			// dump goroutines for the log, then give up on this process
@@ -547,6 +555,17 @@ func runBatch(p *Property, tier string, seed int64, scratch, tag string, cases [
 			}
 		}
 		if culprit < 0 {
+			if ee, ok := exitErr.(*exec.ExitError); ok && ee.ExitCode() == 4 {
+				// deliberate exit after a recorded result: continue with what is left
+				var nr []Case
+				for _, c := range rest {
+					if !done[c.ID] {
+						nr = append(nr, c)
+					}
+				}
+				rest = nr
+				continue
+			}
 			// child failed outside any case (start-up failure)
 			for _, c := range rest {
 				if !done[c.ID] {
